@@ -430,7 +430,7 @@ Error BaseBuilder::label_node_of(Out<LabelNode*> out, uint32_t label_id) {
 
   uint32_t index = label_id;
   if (ASMJIT_UNLIKELY(index >= _code->label_count())) {
-    return make_error(Error::kInvalidLabel);
+    return report_error(make_error(Error::kInvalidLabel));
   }
 
   if (index >= _label_nodes.size()) {
